@@ -581,6 +581,8 @@ class Intervals:
     def term_range(self, t):
         if isinstance(t, int):
             return self.tr[t]
+        if t[0] == "K":
+            return (0, (1 << 64) - 1) if not t[1].startswith("-") else None
         if t[0] == "L":
             return self.term_tr.get(t, (0, ISIZE_MAX))
         tr = self.term_tr.get(t)
@@ -603,6 +605,10 @@ class Intervals:
     def term_of(self, st, op):
         """term whose value the operand currently equals, or None"""
         if op[0] == "k":
+            # an unevaluated constant (a const generic parameter such as `N`) is a symbolic term: it has one value
+            # throughout the function, so `i < N` then `buf[i]` (array length N) relate through it
+            if len(op) > 3 and (len(op) < 3 or not isinstance(op[2], (str, list))) and isinstance(op[3], str) and ty_range(op[1]) is not None:
+                return ("K", op[3])
             return None
         p = op[1]
         if not p[1]:
